@@ -59,7 +59,7 @@ CHECKS["C11"] = ("runtime monitor + Go race detector: diagnostic sets across sch
 
 CHECKS["C10"] = ("runtime termination monitor: exit status / stderr / analyzer errors / CPU time of the real binary and of go vet -vettool on annotation-injected real-world code, exotic generated programs and fuzzed comments",
   "(a) yaml.v3, testify, go-spew, go-difflib and a set of x/tools packages are copied, annotations of every kind (incl. @implements with existing / missing / unimported / self targets, @constructor naming existing and missing functions, @mutable on fields, @ignore comments) are injected above PRNG-chosen declarations in several rounds at rates 5-40%, and the copies are analysed in json and text mode, default and scan-tests, plus go vet -vettool where tests compile offline; (b) generated programs containing every FREE shape and a file of exotic valid Go (generics, embedding, aliases of predeclared types, labels, method expressions, channel/select/range assignments) with package-level initialisers in every position, both drivers; (c) modules with thousands of fuzzed '@keyword<bytes>' doc comments. Every run must end with its diagnostics status, without panic / fatal error / internal error / analyzer error, within the CPU bound.",
-  "hang bound on child CPU time (300 s); wall-clock watchdog only yields 'inconclusive'; std-library overlay injection (needs the go1.26.8 harness) is not built in this round", "DESIGN.md §3 C10")
+  "hang bound on child CPU time (300 s); wall-clock watchdog only yields 'inconclusive'; the std-library overlay workload runs the real analyzers in-process inside a second harness binary built with go1.26.8 (the only toolchain whose GOROOT accepts overlays), not through the gogreement binary; strace fault injection is not built", "DESIGN.md §3 C10")
 
 CHECKS["C05"] = ("runtime differential monitor: IMPL01/02/03 (+ listed methods) of the real binary vs go/types (method sets, types.Identical, import binding) on the same generated module",
   "Generated (type, interface) pairs over a signature grammar (basic incl. byte/uint8, rune/int32, any/interface{}; named local / imported / same-named from packages with equal names; pointers, slices, arrays, maps, funcs, chans with direction, variadics, aliases; value / pointer receivers; promotion through embedded E, *E and embedded interfaces; interface embedding; T an interface or non-struct; interface in the same package / imported / under alias / from a package whose name differs from its directory; & or not; unimported, missing, non-interface targets, blank imports), each an exact copy or a single-edit mutation of the interface's signatures, are analysed by the real binary; code and listed methods must equal what go/types says about the same module (cross-checked against types.Implements).",
